@@ -133,8 +133,16 @@ def run(ctx: Ctx):
     rb = ctx.repo.get_class(BL, "RolloutBaseline")
     fi = rb.methods["wrap_dataset"]
     ctx.fn(fi)
-    src = ast.unparse(fi.node)
-    okd = ".detach()" in src and "add_key('extra', rewards)" in src
+    itw = vg.Interp(ctx.repo, rb, inline_policy=lambda f, a: False)
+    itw.run_function(fi)
+    adds = [e for e in itw.events if e.kind == "methcall" and e.data[1] == "add_key" and len(e.data[2]) == 2 and vg.is_const(e.data[2][0], "extra")]
+
+    def detached(v):
+        """v is the rollout result behind a .detach() (shape / device moves may follow)"""
+        while isinstance(v, vg.S) and v.op == "meth" and v.args[1] in ("cpu", "to", "float", "clone", "contiguous", "view", "reshape", "squeeze"):
+            v = v.args[0]
+        return isinstance(v, vg.S) and v.op == "meth" and v.args[1] == "detach" and any((nf._fn(n) or "").endswith(".rollout") for n in vg.walk(v.args[0]))
+    okd = len(adds) == 1 and detached(adds[0].data[2][1])
     ev = rb.methods["rollout"]
     ctx.fn(ev)
     okr = any(isinstance(n, ast.With) and "inference_mode" in ast.unparse(n.items[0].context_expr) for n in ast.walk(ev.node))
